@@ -24,6 +24,7 @@ class LookupModel(KModel):
         self.used = 0
         self.facts = {}            # index-term string -> set of relations of A[k] to q: 'A<q','A<=q','A>q','A>=q'
         self.idx_facts = []        # (op, lhs, rhs, bool) between index terms
+        self.idx_known = {}        # canonical index comparison -> decided truth value
         self.reads = []            # (index term, facts snapshot)
         self.trace = []
         self.loop = None           # loop report
@@ -71,6 +72,23 @@ class LookupModel(KModel):
                 ca, cb = a.const(), b.const()
                 if ca is not None and cb is not None:
                     return super().compare(op, a, b, e)
+                if op in ('lt', 'le', 'gt', 'ge') and a.r.is_poly() and b.r.is_poly():
+                    # integers: every order comparison is `p > 0` for one canonical p (p > 0 <=> not (1 - p > 0))
+                    p = {'lt': b.r - a.r, 'gt': a.r - b.r, 'le': b.r - a.r + 1, 'ge': a.r - b.r + 1}[op].as_poly()
+                    if all(c.denominator == 1 for c in p.t.values()):
+                        flip = False
+                        lead = sorted(p.atoms())[0]
+                        if p.coeff_of(lead, p.degree_in(lead)).const_value() < 0 or \
+                                (p.coeff_of(lead, p.degree_in(lead)).const_value() == 0 and str(p) > str(Poly.const(1) - p)):
+                            p = Poly.const(1) - p
+                            flip = True
+                        label = "index pos(%s)" % p
+                        if label in self.idx_known:
+                            return self.idx_known[label] != flip
+                        d = self.decide(label)
+                        self.idx_known[label] = d
+                        self.idx_facts.append(('pos', str(p), '0', d))
+                        return d != flip
                 d = self.decide("index %s %s %s" % (sa, op, sb))
                 self.idx_facts.append((op, sa, sb, d))
                 return d
@@ -103,66 +121,156 @@ class LookupModel(KModel):
     def plain_loop(self, body, frame, e):
         rep = {'where': line_of(e)}
         self.loop = rep
-        # locate the (lower, upper) pair: a tuple-typed variable assigned inside the loop
-        targets = set()
-        from ..thir import walk
-        for x in walk(body):
-            if x.get('k') == 'Assign':
-                l = x['l']
-                while l.get('k') == 'Field':
-                    l = l['e']
-                if l.get('k') in ('Var', 'Upvar'):
-                    targets.add(l['var'])
-        rep['modified'] = sorted(targets)
-        if len(targets) != 1:
-            raise Unsupported("binary-search loop modifies %s (expected exactly one (lower, upper) pair)" % sorted(targets), e)
-        var = list(targets)[0]
-        cur = deref_all(frame.lookup(var))
-        if not (isinstance(cur, Tup) and len(cur.items) == 2 and all(isinstance(deref_all(i), Num) for i in cur.items)):
-            raise Unsupported("loop state %r is not a pair of indices" % (cur,), e)
-        lo0, hi0 = str(deref_all(cur.items[0]).r), str(deref_all(cur.items[1]).r)
+
+        def fork_frame():
+            fr2 = Frame()
+            chain = []
+            f = frame
+            while f is not None:
+                chain.append(f)
+                f = f.parent
+            memo = {}
+            for f in reversed(chain):
+                for k, v in f.vars.items():
+                    fr2.bind(k, copy.deepcopy(v, memo) if not isinstance(v, Clo) else v)
+            return fr2
+
+        def fork_model(dec, with_facts):
+            m2 = LookupModel(dec)
+            m2.guesses = 10
+            if with_facts:
+                m2.facts = {k: set(v) for k, v in self.facts.items()}
+                m2.idx_known = dict(self.idx_known)
+            return m2, Interp(self.interp.lib, m2)
+
+        # ---- the loop state: the index-valued leaves (of variables, tuples, private structs) some body path changes
+        before = dict(_leaves_of_frame(frame))
+        changed = set()
+        stack = [[]]
+        npaths = 0
+        while stack:
+            dec = stack.pop()
+            m2, it2 = fork_model(dec, True)
+            fr2 = fork_frame()
+            try:
+                it2.eval(body, fr2)
+                after = dict(_leaves_of_frame(fr2))
+                changed |= {s for s in before if after.get(s) != before[s]}
+            except (BreakEx, ReturnEx, ContinueEx):
+                pass
+            except NeedDecision:
+                stack.append(dec + [True])
+                stack.append(dec + [False])
+            npaths += 1
+            if npaths > 200:
+                raise Unsupported("binary-search loop body has too many paths", e)
+        slots = sorted(changed)
+        rep['modified'] = ['%s%s' % (v, ''.join('.' + p for p in path)) for v, path in slots]
+        if len(slots) != 2:
+            raise Unsupported("binary-search loop state %s is not a pair of indices" % (rep['modified'],), e)
+        st0 = [(s, before[s]) for s in slots]
+        lo_slot = [s for s, v in st0 if self.knows(v, 'A<=q')]
+        hi_slot = [s for s, v in st0 if self.knows(v, 'A>q')]
+        if len(lo_slot) != 1 or len(hi_slot) != 1 or lo_slot[0] == hi_slot[0]:
+            rep['entry'] = tuple(v for _, v in st0)
+            rep['establish'] = (False, False)
+            rep['entry_facts'] = {k: sorted(v) for k, v in self.facts.items()}
+            rep['steps'] = []
+            _set_leaf(frame, st0[0][0], 'lo*')
+            _set_leaf(frame, st0[1][0], 'hi*')
+            return self._leave_loop(body, frame)
+        lo_slot, hi_slot = lo_slot[0], hi_slot[0]
+        lo0 = dict(st0)[lo_slot]
+        hi0 = dict(st0)[hi_slot]
         rep['entry'] = (lo0, hi0)
         rep['establish'] = (self.knows(lo0, 'A<=q'), self.knows(hi0, 'A>q'))
         rep['entry_facts'] = {k: sorted(v) for k, v in self.facts.items()}
-        # ---- preservation: one inductive step from a fresh state satisfying the invariant and the loop condition
+        # ---- preservation: one inductive step from a fresh state satisfying the invariant
         steps = []
         stack = [[]]
         while stack:
             dec = stack.pop()
-            m2 = LookupModel(dec)
-            m2.guesses = 10
-            it2 = Interp(self.interp.lib, m2)
-            fr2 = Frame()
-            f = frame
-            chain = []
-            while f is not None:
-                chain.append(f)
-                f = f.parent
-            for f in reversed(chain):
-                for k, v in f.vars.items():
-                    fr2.bind(k, copy.deepcopy(v) if not isinstance(v, (Ref, Clo)) else v)
-            fr2.bind(var, Tup([Num(Rat.atom('lo')), Num(Rat.atom('hi'))]))
+            m2, it2 = fork_model(dec, False)
+            fr2 = fork_frame()
+            _set_leaf(fr2, lo_slot, 'lo')
+            _set_leaf(fr2, hi_slot, 'hi')
             m2.add_fact('lo', 'A<=q')
             m2.add_fact('hi', 'A>q')
             try:
                 try:
                     it2.eval(body, fr2)
-                    new = deref_all(fr2.lookup(var))
-                    lo1, hi1 = str(deref_all(new.items[0]).r), str(deref_all(new.items[1]).r)
+                    st1 = dict(_leaves_of_frame(fr2))
+                    lo1, hi1 = st1[lo_slot], st1[hi_slot]
                     steps.append({'decisions': list(m2.trace), 'exit': False, 'state': (lo1, hi1),
                                   'inv': (m2.knows(lo1, 'A<=q'), m2.knows(hi1, 'A>q')),
                                   'reads': [r[0] for r in m2.reads]})
-                except BreakEx:
-                    steps.append({'decisions': list(m2.trace), 'exit': True, 'idx_facts': list(m2.idx_facts)})
+                except (BreakEx, ReturnEx) as ex:
+                    steps.append({'decisions': list(m2.trace), 'exit': True, 'idx_facts': list(m2.idx_facts),
+                                  'value': str(deref_all(ex.v).r) if isinstance(deref_all(ex.v), Num) else None,
+                                  'reads': [r[0] for r in m2.reads]})
             except NeedDecision:
                 stack.append(dec + [True])
                 stack.append(dec + [False])
         rep['steps'] = steps
-        # ---- after the loop: havoc the pair, assume invariant (exit condition is an index fact)
-        frame.assign(var, Tup([Num(Rat.atom('lo*')), Num(Rat.atom('hi*'))]))
+        # ---- after the loop: havoc the pair, assume the invariant, leave through the body's own exit path
+        _set_leaf(frame, lo_slot, 'lo*')
+        _set_leaf(frame, hi_slot, 'hi*')
         self.add_fact('lo*', 'A<=q')
         self.add_fact('hi*', 'A>q')
-        return Unit()
+        return self._leave_loop(body, frame)
+
+    def _leave_loop(self, body, frame):
+        """value of the loop expression: run the body once more from the havocked state; only its exit path continues the function"""
+        try:
+            self.interp.eval(body, frame)
+        except BreakEx as b:
+            return b.v if b.v is not None else Unit()
+        raise NotExit()
+
+
+class NotExit(Exception):
+    """the path re-enters the loop from the summarised state: already covered by the inductive step"""
+
+
+def _leaves(v, path):
+    if isinstance(v, Tup):
+        for i, x in enumerate(v.items):
+            yield from _leaves(x, path + (str(i),))
+    elif isinstance(v, Enum):
+        for n in sorted(v.fields):
+            yield from _leaves(v.fields[n], path + (n,))
+    elif isinstance(v, Num):
+        yield path, str(v.r)
+
+
+def _leaves_of_frame(fr):
+    chain = []
+    f = fr
+    while f is not None:
+        chain.append(f)
+        f = f.parent
+    seen = {}
+    for f in reversed(chain):
+        for var, v in f.vars.items():
+            seen[var] = v
+    for var, v in seen.items():
+        for path, s in _leaves(v, ()):
+            yield (var, path), s
+
+
+def _set_leaf(fr, slot, name):
+    var, path = slot
+    new = Num(Rat.atom(name))
+    if not path:
+        fr.assign(var, new)
+        return
+    cur = fr.lookup(var)
+    for p in path[:-1]:
+        cur = cur.items[int(p)] if isinstance(cur, Tup) else cur.fields[p]
+    if isinstance(cur, Tup):
+        cur.items[int(path[-1])] = new
+    else:
+        cur.fields[path[-1]] = new
 
 
 def explore(lib, body):
@@ -179,6 +287,8 @@ def explore(lib, body):
         except NeedDecision:
             stack.append(dec + [True])
             stack.append(dec + [False])
+        except NotExit:
+            pass
         except Diverge as d:
             paths.append((m, 'panic', d))
         except Unsupported as u:
@@ -285,12 +395,14 @@ def analyse(chk, lib, set_text=True):
             if st['exit']:
                 cond = [d for d in st['decisions'] if d[0].startswith('index ')]
                 chk.ob('R11.6', "the loop exits exactly when not (lower + 1 < upper) (exit decisions: %s)" % cond,
-                       cond == [('index 1 + lo lt hi', False)], rep['where'], 'loop-exit-cond')
+                       cond == [('index pos(-1 + hi - lo)', False)] and not st.get('reads'), rep['where'], 'loop-exit-cond')
+                if st.get('value') is not None:
+                    chk.ob('R11.4', "the value the loop yields on exit is the lower bound (got %s)" % st['value'], st['value'] == 'lo', rep['where'], 'loop-exit-value')
                 continue
             cond = [d for d in st['decisions'] if d[0].startswith('index ')]
             lo1, hi1 = st['state']
             probe = hi1 if lo1 == 'lo' else lo1
-            chk.ob('R11.6', "the loop continues exactly under lower + 1 < upper (decisions: %s)" % cond, cond == [('index 1 + lo lt hi', True)],
+            chk.ob('R11.6', "the loop continues exactly under lower + 1 < upper (decisions: %s)" % cond, cond == [('index pos(-1 + hi - lo)', True)],
                    rep['where'], 'loop-cond-%s' % probe)
             chk.ob('R11.6', "the probed index is the midpoint (lower + upper) / 2 in integer arithmetic (got %s): with lower + 1 < upper it lies strictly "
                             "between the bounds, so the interval shrinks (termination) and the probe is a valid index" % probe,
